@@ -376,14 +376,18 @@ class Misorientation(Rotation):
         [ 0.      1.      0.      0.    ]]
         """
         Gl, Gr = self._symmetry
-        # Only proper operations map a (mis)orientation to an equivalent
-        # (mis)orientation
-        Gl_proper, Gr_proper = Gl[~Gl.improper], Gr[~Gr.improper]
-        symmetry_pairs = iproduct(Gl_proper, Gr_proper)
-        if verbose:
-            symmetry_pairs = tqdm(
-                symmetry_pairs, total=Gl_proper.size * Gr_proper.size
+        # Only pairs of two proper or two improper operations map a
+        # (mis)orientation to an equivalent (mis)orientation (the two
+        # inversions cancel)
+        symmetry_pairs = [
+            (gl, gr)
+            for gl_improper in (False, True)
+            for gl, gr in iproduct(
+                Gl[Gl.improper == gl_improper], Gr[Gr.improper == gl_improper]
             )
+        ]
+        if verbose:
+            symmetry_pairs = tqdm(symmetry_pairs, total=len(symmetry_pairs))
 
         orientation_region = OrientationRegion.from_symmetry(Gl, Gr)
         o_inside = self.__class__.identity(self.shape)
